@@ -334,8 +334,8 @@ func newCluster(dir string, o clusterOpts) (*cluster, error) {
 	}
 	for i := 0; i < o.n; i++ {
 		nd := &node{cl: c, barrier: make(chan struct{}, 4), verbose: o.verbose}
-		lg := zap.New(&barrierCore{n: nd}, zap.WithFatalHook(zapcore.WriteThenPanic))
-		bc, err := newChain(mkCfg(), lg)
+		// the ledger's own log is not this property's business
+		bc, err := newChain(mkCfg(), zap.NewNop())
 		if err != nil {
 			return nil, err
 		}
@@ -446,8 +446,8 @@ func (n *node) sentinel() *npayload.Extensible {
 // sync waits until the node's service has handled everything injected so far, including the
 // chain's block notification when the ledger is ahead of the dBFT context.
 func (n *node) sync() error {
-	deadline := time.Now().Add(20 * time.Second)
-	resetBy := time.Now().Add(3 * time.Second)
+	deadline := time.Now().Add(90 * time.Second)
+	resetBy := time.Now().Add(20 * time.Second)
 	for {
 		// drain stale barrier tokens
 		for {
